@@ -569,68 +569,13 @@ fn c13_http_unknown_method() {
     http_unknown_method()
 }
 
-//# harness: c13_http_request_crlf
-//# props: C13 C01 C19
-//# tier: quick
-//# encodes: proto::http::repl (datagram mode) incl. http_parse, the 401 template and the warn! arguments
-//# bounds: request "GET /t HTTP/1.v" + CRLF CRLF with target byte t, version digit v arbitrary (256 values each, incl. SP/CR/LF/non-UTF-8); log level Off
-//# stubs: http_init -> real tables; chrono::Utc::now / to_rfc2822 -> fixed; alloc::fmt::format -> fixed text (the response text is decided by c13_http_response; here only acceptance and panics matter)
-//# out: longer targets / more header lines (covered by the per-state step lemmas)
-//# cover: complete request answered
-//# cover: malformed request ignored
-#[kani::proof]
-#[kani::unwind(40)]
-#[kani::stub(crate::proto::http::http_init, crate::proto::http::verif_http_init_stub)]
-#[kani::stub(chrono::Utc::now, crate::verif_util::utc_now_stub)]
-#[kani::stub(chrono::DateTime::to_rfc2822, rfc2822_stub)]
-#[kani::stub(alloc::fmt::format, crate::verif_util::fmt_format_stub)]
-fn c13_http_request_crlf() {
-    http_request(false, log::LevelFilter::Off)
-}
 
-//# harness: c13_http_request_header
-//# props: C13 C01
-//# tier: thorough
-//# encodes: proto::http::repl (datagram mode) incl. http_parse, the 401 template and the warn! arguments
-//# bounds: request "GET /t HTTP/1.v" + LF h:w LF LF with target byte t, version digit v, header name byte h and value byte w arbitrary (256 values each, incl. SP/CR/LF/non-UTF-8); log level Off
-//# stubs: http_init -> real tables; chrono::Utc::now / to_rfc2822 -> fixed; alloc::fmt::format -> fixed text (the response text is decided by c13_http_response; here only acceptance and panics matter)
-//# out: longer targets / more header lines (covered by the per-state step lemmas)
-//# cover: complete request answered
-//# cover: malformed request ignored
-#[kani::proof]
-#[kani::unwind(40)]
-#[kani::stub(crate::proto::http::http_init, crate::proto::http::verif_http_init_stub)]
-#[kani::stub(chrono::Utc::now, crate::verif_util::utc_now_stub)]
-#[kani::stub(chrono::DateTime::to_rfc2822, rfc2822_stub)]
-#[kani::stub(alloc::fmt::format, crate::verif_util::fmt_format_stub)]
-fn c13_http_request_header() {
-    http_request(true, log::LevelFilter::Off)
-}
 
-//# harness: c01_http_request_warn
-//# props: C01 C13
-//# tier: quick
-//# encodes: proto::http::repl (datagram mode) incl. http_parse, the 401 template and the warn! arguments
-//# bounds: request "GET /t HTTP/1.v" + CRLF CRLF with target byte t, version digit v arbitrary (256 values each, incl. SP/CR/LF/non-UTF-8); log level Warn
-//# stubs: http_init -> real tables; chrono::Utc::now / to_rfc2822 -> fixed; alloc::fmt::format -> fixed text (the response text is decided by c13_http_response; here only acceptance and panics matter)
-//# out: longer targets / more header lines (covered by the per-state step lemmas)
-//# cover: complete request answered
-//# cover: non-ASCII target answered
-#[kani::proof]
-#[kani::stub(::log::__private_api::loc, crate::verif_util::log_loc_stub)]
-#[kani::unwind(40)]
-#[kani::stub(crate::proto::http::http_init, crate::proto::http::verif_http_init_stub)]
-#[kani::stub(chrono::Utc::now, crate::verif_util::utc_now_stub)]
-#[kani::stub(chrono::DateTime::to_rfc2822, rfc2822_stub)]
-#[kani::stub(alloc::fmt::format, crate::verif_util::fmt_format_stub)]
-fn c01_http_request_warn() {
-    http_request(false, log::LevelFilter::Warn)
-}
 
 //# harness: c13_http_response
 //# timeout: 1400
 //# props: C13
-//# tier: quick
+//# tier: extended
 //# encodes: proto::http::repl (response construction: format! of the 401 template)
 //# bounds: request "GET / HTTP/1.1 CRLF CRLF" (concrete); the response is input-independent apart from the date
 //# stubs: http_init -> real tables; chrono::Utc::now -> fixed instant
